@@ -78,7 +78,7 @@ RULE = ("notification shapes (2.0 without id, id null, id '') alone and at sampl
 
 
 def run(ctx):
-    em = {"single": 0.8, "batch": 2.0, "damaged": 0.1, "descriptor": 0.4, "noise": 0.2, "pool": 3.0, "randreg": 0.6, "post": 0.02,
+    em = {"names": 1.0, "longbody": 0.3, "single": 0.8, "batch": 2.0, "damaged": 0.1, "descriptor": 0.4, "noise": 0.2, "pool": 3.0, "randreg": 0.6, "post": 0.02,
           "exhaustive_batch": True, "ws": 0.2, "ws_focus": "notif", "textlayer": True, "baseexc": 1.0}
     sc.standard_run(ctx, "C04", MONITORS, sc.proj_notif, em, RULE)
     pooled_stage(ctx)
